@@ -198,6 +198,41 @@ func closePhiFacts(ff *FuncFacts, in FactSet) {
 				if b, isC := constBool(e); isC && b != pol {
 					continue
 				}
+				// an edge whose predecessor is reached only under a condition that is known to be false here (a pure
+				// comparison of values that do not change: `a == -1 && b == -1` false, later `a == -1` true ⇒ the
+				// edge from `a != -1` was not the one taken)
+				{
+					pred := ph.Block().Preds[i]
+					if pin, ok := ff.In[pred]; ok {
+						contradicted := false
+						for k, v := range edgeFacts(pin, pred, ph.Block()) {
+							if _, isPhi := k.(*ssa.Phi); isPhi {
+								continue
+							}
+							if cur, known := in[k]; known && cur != v && pureOverDominating(k, ph.Block()) {
+								contradicted = true
+							}
+						}
+						if contradicted {
+							continue
+						}
+					}
+				}
+				// an incoming value whose truth is known on its edge (the predecessor branched on it) and differs
+				// from the phi's known value excludes the edge as well
+				if _, isC := constBool(e); !isC {
+					pred := ph.Block().Preds[i]
+					if pin, ok := ff.In[pred]; ok {
+						ef := edgeFacts(pin, pred, ph.Block())
+						inner, neg := unwrapBool(e)
+						if v, known := ef[e]; known && v != pol {
+							continue
+						}
+						if v, known := ef[inner]; known && inner != e && (v != neg) != pol {
+							continue
+						}
+					}
+				}
 				possible = i
 				n++
 			}
